@@ -66,8 +66,15 @@ def check_outputs(b, sol, hist, times, eps, viol, stats, *, label, compare_first
     # q >= 6: rounding in the backward pass is amplified (observed on the repaired tree: covariances up to
     # 2e-6, cross-covariances up to 4e-4; <= 1e-12 for q <= 5) -- "high-order" tolerance class, DESIGN.md §2.6
     hi = q >= 6
+    # conditioning of the predicted covariances along the history: the backward gain solves with them
+    kP = max([compare.corr_cond(embed.to_np(st["Ppred"])) for st in hist[1:]] + [1.0])
+    stats["cond_pred_max"] = min(kP, 1e32)
+    nk = (q, d, hmean)
+    tol_m = max(tol_m, 100 * compare.cond_tol(compare.TOL_LOCAL_MEAN, kP))
     tol_c = (1e-4 if hi else compare.TOL_GLOBAL_COV) + (100 * compare.scale_tol(kap) if scaled else 0.0)
     tol_x = (1e-2 if hi else compare.TOL_GLOBAL_COV) + (100 * compare.scale_tol(kap) if scaled else 0.0)
+    tol_c = max(tol_c, 100 * compare.cond_tol(compare.TOL_LOCAL_COV, kP, 1e4))
+    tol_x = max(tol_x, 100 * compare.cond_tol(compare.TOL_LOCAL_COV, kP, 1e4))
     N = len(times)
     worst_m = worst_c = worst_x = 0.0
     real = [embed.normal_np_at(sol.u, i) for i in range(N)]
@@ -88,7 +95,7 @@ def check_outputs(b, sol, hist, times, eps, viol, stats, *, label, compare_first
         if em > tol_m:
             viol.append({"inv": "RTS-mean", "msg": f"[{label}] smoothed mean at output {i} (t={times[i]:.6g}, {cls[i][0]}) differs from the reference RTS posterior: {em:.2e}"})
         if check_cov and onp.max(onp.abs(onp.diag(Psc))) > 0:
-            ec = compare.cov_err(P, Pr, Psc)
+            ec = compare.cov_err(P, Pr, Psc, nk)
             worst_c = max(worst_c, ec)
             if ec > tol_c:
                 viol.append({"inv": "RTS-cov", "msg": f"[{label}] smoothed covariance at output {i} (t={times[i]:.6g}) differs from the reference RTS posterior: {ec:.2e} (tol {tol_c:.1e})"})
@@ -122,7 +129,7 @@ def check_outputs(b, sol, hist, times, eps, viol, stats, *, label, compare_first
         if em > tol_m:
             viol.append({"inv": "RTS-factorisation", "msg": f"[{label}] backward conditional {i} does not reproduce the marginal mean at output {i}: {em:.2e}"})
         if check_cov and onp.max(onp.abs(onp.diag(Psc))) > 0:
-            ec = compare.cov_err(P_rec, P_i, Psc)
+            ec = compare.cov_err(P_rec, P_i, Psc, nk)
             if ec > tol_c:
                 viol.append({"inv": "RTS-factorisation", "msg": f"[{label}] backward conditional {i} does not reproduce the marginal covariance at output {i}: {ec:.2e}"})
         # (2) neighbouring cross-covariance Cov(x_i, x_{i+1}) = G P^s_{i+1}
@@ -130,10 +137,8 @@ def check_outputs(b, sol, hist, times, eps, viol, stats, *, label, compare_first
             Gref = embed.to_np(scen.gain_between(G, idx[i], idx[i + 1]))
             Cref = Gref @ refs[i + 1][1]
             Creal = A @ P_next
-            sd_i = onp.sqrt(onp.abs(onp.diag(refs[i][2]))) + 1e-300
-            sd_j = onp.sqrt(onp.abs(onp.diag(refs[i + 1][2]))) + 1e-300
             if onp.max(onp.abs(onp.diag(refs[i][2]))) > 0:
-                ex = float(onp.max(onp.abs(Creal - Cref) / onp.outer(sd_i, sd_j)))
+                ex = compare.cross_err(Creal, Cref, refs[i][2], refs[i + 1][2], nk)
                 worst_x = max(worst_x, ex)
                 if ex > tol_x:
                     viol.append({"inv": "RTS-crosscov", "msg": f"[{label}] cross-covariance between outputs {i} and {i + 1} differs from the reference joint smoothing law: {ex:.2e}"})
@@ -145,9 +150,7 @@ def check_outputs(b, sol, hist, times, eps, viol, stats, *, label, compare_first
         Gref = embed.to_np(scen.gain_between(G, idx[0], idx[-1]))
         Cref = Gref @ refs[-1][1]
         Creal = Achain @ real[-1][1]
-        sd_i = onp.sqrt(onp.abs(onp.diag(refs[0][2]))) + 1e-300
-        sd_j = onp.sqrt(onp.abs(onp.diag(refs[-1][2]))) + 1e-300
-        ex = float(onp.max(onp.abs(Creal - Cref) / onp.outer(sd_i, sd_j)))
+        ex = compare.cross_err(Creal, Cref, refs[0][2], refs[-1][2], nk)
         if ex > 10 * tol_x:
             viol.append({"inv": "RTS-crosscov", "msg": f"[{label}] cross-covariance between the first and the last output differs from the reference: {ex:.2e}"})
     stats["worst_mean"] = max(stats.get("worst_mean", 0.0), worst_m)
@@ -230,7 +233,7 @@ def execute(sc):
                 m2, P2 = embed.normal_np_at(r2.sol.u, i)
                 em = compare.mean_err(m1, m2, q, d, float(onp.mean(hs)))
                 Psc = embed.to_np(scen.scale_node_cov(b, hist[max(i, 1)]["Ppred"], scen.final_scale2(b, hist)))
-                ec = compare.cov_err(P1, P2, Psc)
+                ec = compare.cov_err(P1, P2, Psc, (q, d, float(onp.mean(hs))))
                 tol_c = compare.TOL_GLOBAL_COV + 100 * compare.scale_tol(kap)
                 stats["worst_mean"] = max(stats.get("worst_mean", 0.0), em)
                 if em > compare.TOL_GLOBAL_MEAN * max(1.0, compare.scale_tol(kap) / 1e-8):
